@@ -138,7 +138,8 @@ theorem rejected_mock_changes_nothing (s s' : St) (hr : Reachable s) (b v : Nat)
 example : (step Cfg.fixed (St.init (fun _ => sortMeths ["b", "Zed"]) (fun _ => 0) (fun _ => .val 0))
     (.mock 0 1 "b" .ap false)).map (·.2) = some (.panic "applyerr") := by decide
 
-/-- **Reset puts back the saved words** (builder whose interface mocks all belong to one variable's context `c`): after
+/-- Reset puts back the saved words — special case kept for reference (builder whose interface mocks all belong to one
+    variable's context `c`); the general statement is `reset_restores_all` / `reset_any_order` below: after
     `b.Reset()` the variable saved in the context holds exactly the saved words again if any mock had been applied, no
     other variable changes, and the context is canceled (so the next `Interface(&v)` starts a fresh context). -/
 theorem reset_restores_words (s s' : St) (b c v : Nat) (w : Words)
@@ -241,5 +242,106 @@ theorem retained_while_held (s : St) (hr : Reachable s) (v : Nat) : ∀ n ∈ ne
 example : (run Cfg.fixed (St.init (fun _ => sortMeths ["B", "A"]) (fun _ => 0) (fun _ => .val 0))
     [.mock 0 0 "A" .rt true, .mock 0 0 "B" .rt true, .mock 0 0 "A" .ap true, .drop 0]).map
       (fun s => ((needed s 0).length, (needed s 0).all (fun n => (bfs s 64 [.var 0] []).contains n))) = some (3, true) := by decide
+
+theorem reachable_inv2 {s : St} (h : Reachable s) : Inv2 Cfg.fixed s := by
+  obtain ⟨types, vtyp, vars0, ops, hv, hapi, hr⟩ := h
+  exact inv2_run Cfg.fixed ops _ s (inv_init Cfg.fixed types vtyp vars0 hv) (inv2_init Cfg.fixed types vtyp vars0) hapi hr
+
+/-- variable `v` is mocked through builder `b`, with saved words `w`: one of the builder's interface method mockers has a
+    guard (a mock was applied through it) and its context backed up `v` holding `w` -/
+def MockedThrough (s : St) (b v : Nat) (w : Words) : Prop := Binds s (mmsOf s b) v w
+
+/-- the saved words of a variable are unique within a builder (whatever number of variables, of equal or different
+    interface types, the builder mocks): a builder has one cached mocker, hence one context, per variable -/
+theorem saved_words_unique (s : St) (hr : Reachable s) (b v : Nat) (w w' : Words)
+    (h1 : MockedThrough s b v w) (h2 : MockedThrough s b v w') : w = w' := by
+  have hI := reachable_inv hr
+  have hJ := reachable_inv2 hr
+  have key : ∀ i w, i ∈ mmsOf s b → (s.ctxs (s.mms i).ctx).backup = some (v, w) →
+      ∃ p ∈ (s.blds b).mockers, (s.mms i).ctx = (s.cms p.2).ctx ∧ p.1 = (s.vtyp v, v + 1) := by
+    intro i w hi hb
+    simp only [mmsOf, List.mem_flatMap, List.mem_map] at hi
+    obtain ⟨p, hp, q, hq, e⟩ := hi
+    subst e
+    have hj := hJ.f b p hp
+    have hc := (hJ.r p.2 hj q hq).2
+    refine ⟨p, hp, hc, ?_⟩
+    rw [hc] at hb
+    have hv := hI.m p.2 hj v w hb
+    rw [hJ.k rfl b p hp, ← hv]
+  obtain ⟨i, hi, _, hb⟩ := h1
+  obtain ⟨i', hi', _, hb'⟩ := h2
+  obtain ⟨p, hp, c1, k1⟩ := key i w hi hb
+  obtain ⟨p', hp', c2, k2⟩ := key i' w' hi' hb'
+  have e := hJ.n b p p' hp hp' (by rw [k1, k2])
+  subst e
+  rw [c1] at hb
+  rw [c2, hb] at hb'
+  cases hb'
+  rfl
+
+/-- **`Builder.Reset` never panics and restores every variable** (full strength: any reachable state — rejected mocks,
+    per-method Cancel, any number of variables of equal and different interface types in the builder, other builders —
+    and any iteration order `l` of the builder's mocker map): the cancel loop completes; afterwards every variable mocked
+    through `b` holds its saved words, the context of every applied mock of `b` is canceled, and every variable not
+    mocked through `b` (in particular every variable of another builder) is unchanged. -/
+theorem reset_any_order (s : St) (hr : Reachable s) (b : Nat) (l : List Nat) (hl : ∀ i, i ∈ l ↔ i ∈ mmsOf s b) :
+    ∃ s', cancelMMs s l = some s'
+      ∧ (∀ v w, MockedThrough s b v w → s'.vars v = w)
+      ∧ (∀ i ∈ mmsOf s b, (s.mms i).hasGuard = true → (s'.ctxs (s.mms i).ctx).canceled = true)
+      ∧ (∀ u, (¬ ∃ w, MockedThrough s b u w) → s'.vars u = s.vars u) := by
+  have hJ := reachable_inv2 hr
+  have hb : ∀ u w, Binds s l u w ↔ MockedThrough s b u w := by
+    intro u w
+    constructor
+    · rintro ⟨i, hi, h⟩; exact ⟨i, (hl i).mp hi, h⟩
+    · rintro ⟨i, hi, h⟩; exact ⟨i, (hl i).mpr hi, h⟩
+  obtain ⟨s', h0, _, _, _, h4, h5, h6⟩ := cancelMMs_gen l s (fun i _ hg => (hJ.g i hg).2)
+  refine ⟨s', h0, ?_, ?_, ?_⟩
+  · intro v w hm
+    exact h5 v w ((hb v w).mpr hm) (fun w' hw' => saved_words_unique s hr b v w' w ((hb v w').mp hw') hm)
+  · intro i hi hg
+    exact h6 i ((hl i).mpr hi) hg
+  · intro u hu
+    exact h4 u (fun ⟨w, hw⟩ => hu ⟨w, (hb u w).mp hw⟩)
+
+/-- **Reset does not panic** in any reachable state (a guard never exists without a backup — what a rejected `Apply`
+    must not break). -/
+theorem reset_total (s : St) (hr : Reachable s) (b : Nat) : ∃ s', step Cfg.fixed s (.reset b) = some (s', .ok) := by
+  obtain ⟨s', h0, _⟩ := reset_any_order s hr b (mmsOf s b) (fun _ => Iff.rfl)
+  exact ⟨s', by simp [step, resetStep, h0]⟩
+
+/-- **Reset restores every variable of the builder** (the statement for the model's own iteration order) -/
+theorem reset_restores_all (s s' : St) (hr : Reachable s) (b : Nat) (hs : step Cfg.fixed s (.reset b) = some (s', .ok)) :
+    (∀ v w, MockedThrough s b v w → s'.vars v = w)
+    ∧ (∀ i ∈ mmsOf s b, (s.mms i).hasGuard = true → (s'.ctxs (s.mms i).ctx).canceled = true)
+    ∧ (∀ u, (¬ ∃ w, MockedThrough s b u w) → s'.vars u = s.vars u) := by
+  obtain ⟨s'', h0, h1⟩ := reset_any_order s hr b (mmsOf s b) (fun _ => Iff.rfl)
+  simp only [step, resetStep, h0, Option.map_some, Option.some.injEq, Prod.mk.injEq, and_true] at hs
+  subst hs
+  exact h1
+
+/-- **the map iteration order of `Builder.Reset` is irrelevant** for the variables -/
+theorem reset_order_irrelevant (s s1 s2 : St) (hr : Reachable s) (b : Nat) (l1 l2 : List Nat)
+    (h1 : ∀ i, i ∈ l1 ↔ i ∈ mmsOf s b) (h2 : ∀ i, i ∈ l2 ↔ i ∈ mmsOf s b)
+    (e1 : cancelMMs s l1 = some s1) (e2 : cancelMMs s l2 = some s2) : s1.vars = s2.vars := by
+  obtain ⟨t1, a0, a1, _, a3⟩ := reset_any_order s hr b l1 h1
+  obtain ⟨t2, b0, b1, _, b3⟩ := reset_any_order s hr b l2 h2
+  rw [e1] at a0; cases a0
+  rw [e2] at b0; cases b0
+  funext u
+  by_cases h : ∃ w, MockedThrough s b u w
+  · obtain ⟨w, hw⟩ := h
+    rw [a1 u w hw, b1 u w hw]
+  · rw [a3 u h, b3 u h]
+
+/-- two variables of the same interface type (one nil, one holding implementation 5) and one of another type, mocked in one
+    builder, a third variable in another builder; a rejected mock and a per-method Cancel in between; `Reset` of builder 0
+    restores variables 0 and 1 and leaves builder 1's variable 2 mocked -/
+example : (run Cfg.fixed (St.init (fun _ => sortMeths ["B", "A"]) (fun v => if v = 2 then 1 else 0)
+      (fun v => if v = 1 then .val 5 else .val 0))
+    [.mock 0 0 "A" .ap true, .mock 0 1 "B" .rt true, .mock 1 2 "A" .ap true, .mock 0 1 "A" .ap false,
+     .mock 0 0 "B" .ap true, .cancelM 0 0 "A", .mock 0 0 "B" .rt true, .reset 0]).map
+      (fun s => (s.vars 0, s.vars 1, callSlot s 2 "A")) = some (.val 0, .val 5, some (.stub 2)) := by decide
 
 end C07
